@@ -255,7 +255,7 @@ pub fn trace(out: &str, count: u64, rep: &mut Report) {
                     wt.extend_from_slice(&[0xaa, 0xbb]);
                     let (ptree, rest) = match parse(&wt) {
                         Ok((p, r)) => (structure_to_json(&p), r as i64),
-                        Err(_) => (Value::Null, -1),
+                        Err(_) => (json!({"parse_failed": true}), -1),
                     };
                     rep.eval(!matches!(t.payload, PL::P(_)), hash_of(&b));
                     if i < 4 {
